@@ -542,5 +542,161 @@ theorem offset_internal (mono : Bool) (f b : Key) (hf : f ∈ [k "a", k "b", k "
   simp only [List.mem_cons, List.mem_nil_iff, or_false] at hf hb
   rcases hf with rfl | rfl | rfl <;> rcases hb with rfl | rfl | rfl <;> rfl
 
+
+/-! ### adduct lists (C02) -/
+
+/-- every symbol of `AVERAGE_ATOMIC_MASSES` is an element symbol of `ISOTOPIC_ATOMIC_MASSES`, not an isotope key -/
+def avgKeysOk : Bool := averageMasses.all (fun p => (lookup p.1 isotopicMasses).isSome && !isIsotopeKey p.1)
+
+theorem elem_of_table (hK : avgKeysOk = true) (mono : Bool) (sym : Key) (m : Rat)
+    (h : lookup sym (if mono then isotopicMasses else averageMasses) = some m) :
+    lib.elem mono sym = m := by
+  show (elemMass mono sym).getD 0 = m
+  unfold elemMass
+  cases mono with
+  | true =>
+    simp only [if_true] at h
+    rw [h]; rfl
+  | false =>
+    simp only [Bool.false_eq_true, if_false] at h
+    have hm := chem_lookup_mem sym _ m h
+    have hk := List.all_eq_true.mp hK (sym, m) hm
+    simp only [Bool.and_eq_true, Bool.not_eq_true'] at hk
+    obtain ⟨hi, hn⟩ := hk
+    obtain ⟨m', hm'⟩ := Option.isSome_iff_exists.mp hi
+    rw [hm']
+    simp only [Bool.false_eq_true, if_false, hn, h]
+    rfl
+
+/-- what the current code adds beyond count·(m − q·mₑ) for one stated ion: q·mₑ·(count − 1) -/
+def adductDefectIon (x : List Nat) : Rat :=
+  match parseIonElements x with
+  | .ok (cnt, sym, q) => if sym = kE then 0 else (q : Rat) * Gen.electronMass * ((cnt : Rat) - 1)
+  | .error _ => 0
+
+/-- … and for a whole list; the literal `+H+` is answered with `PROTON_MASS` instead of m(H) − mₑ -/
+def adductDefect (mono : Bool) (s : List Nat) : Rat :=
+  if s = [43, 72, 43] then Gen.protonMass - lib.hplus mono else sumR ((splitComma s).map adductDefectIon)
+
+theorem adductMass_eq (hK : avgKeysOk = true) (mono : Bool) (x : List Nat) (h : adductIonOk mono x = true) :
+    adductMass mono x = .ok (adductIonTerm lib mono x + adductDefectIon x) := by
+  unfold adductIonOk at h
+  unfold adductMass adductIonTerm adductDefectIon
+  cases hp : parseIonElements x with
+  | error e => rw [hp] at h; simp at h
+  | ok r =>
+    obtain ⟨cnt, sym, q⟩ := r
+    rw [hp] at h
+    rw [bind_ok]
+    simp only at h ⊢
+    by_cases he : sym = kE
+    · simp only [he, if_true]
+      show Except.ok _ = Except.ok _
+      congr 1
+      show _ = (cnt : Rat) * Gen.electronMass + 0
+      ring
+    · simp only [he, if_false, decide_false, Bool.false_or] at h ⊢
+      obtain ⟨m, hm⟩ := Option.isSome_iff_exists.mp h
+      rw [hm]
+      have hel := elem_of_table hK mono sym m hm
+      show Except.ok _ = Except.ok _
+      congr 1
+      rw [hel]
+      show _ = (cnt : Rat) * (m - (q : Rat) * Gen.electronMass) + (q : Rat) * Gen.electronMass * ((cnt : Rat) - 1)
+      ring
+
+theorem chargeAdductsMassStr_eq (hK : avgKeysOk = true) (mono : Bool) (s : List Nat)
+    (h : (splitComma s).all (adductIonOk mono) = true) :
+    chargeAdductsMassStr mono s = .ok (adductTerm lib mono s + adductDefect mono s) := by
+  unfold chargeAdductsMassStr adductDefect
+  by_cases hs : s = [43, 72, 43]
+  · subst hs
+    simp only [if_true]
+    show Except.ok _ = Except.ok _
+    congr 1
+    have : adductTerm lib mono [43, 72, 43] = lib.hplus mono := by
+      show sumR [adductIonTerm lib mono [43, 72, 43]] = _
+      have hp : parseIonElements [43, 72, 43] = .ok (1, kH, 1) := by decide
+      unfold adductIonTerm
+      rw [hp]
+      have : (kH = kE) = False := by decide
+      simp only [this, if_false, sumR_cons, sumR_nil]
+      unfold MassTable.hplus
+      push_cast
+      show (1 : Rat) * (lib.elem mono kH - 1 * Gen.electronMass) + 0 = lib.elem mono kH - Gen.electronMass
+      ring
+    rw [this]; ring
+  · simp only [hs, if_false]
+    rw [sumM_ok (adductMass mono) (fun x => adductIonTerm lib mono x + adductDefectIon x) _
+      (fun x hx => adductMass_eq hK mono x (List.all_eq_true.mp h x hx))]
+    show Except.ok _ = Except.ok _
+    congr 1
+    unfold adductTerm
+    generalize splitComma s = l
+    induction l with
+    | nil => simp [sumR_nil]
+    | cons x l ih => simp only [List.map_cons, sumR_cons, ih]; ring
+
+
+theorem adjustMass_adducts_eq (hA : adjustTablesOk = true) (hK : avgKeysOk = true) (base : Rat) (charge : Option Int)
+    (ion : Key) (mono : Bool) (isotope : Int) (loss : Rat) (precision : Option Int) (v : Rat)
+    (hv : neutralOffset lib mono ion = some v) (hp : (ion = ionP || ion = ionN) = true) (s : List Char)
+    (h : (splitComma (s.map Char.toNat)).all (adductIonOk mono) = true) :
+    adjustMass base charge ion mono isotope loss (some (.str s)) precision
+      = .ok (roundOpt (base + v + (adductTerm lib mono (s.map Char.toNat) + adductDefect mono (s.map Char.toNat))
+              + (isotope : Rat) * lib.neutron + loss) precision) := by
+  have he := adjustEntry_of_tables hA mono ion v hv
+  unfold adjustEntryOk at he
+  simp only [hp, if_true] at he
+  have hf : fragmentAdjMass mono ion = some v := of_decide_eq_true he
+  unfold adjustMass Mass.chargeTerm chargeAdductsMass
+  dsimp only
+  rw [chargeAdductsMassStr_eq hK mono _ h, bind_ok, hf]
+  show Except.ok (roundOpt _ precision) = Except.ok (roundOpt _ precision)
+  congr 2
+  show _ = base + v + (adductTerm lib mono (s.map Char.toNat) + adductDefect mono (s.map Char.toNat))
+    + (isotope : Rat) * Gen.neutronMass + loss
+  ring
+
+/-- **mass with an explicit adduct list** (on the peptide, ion type `p` / `n`): the specification sum plus exactly the
+defect of the adduct arithmetic, `Σ q·mₑ·(count − 1)` over the stated non-electron ions (`PROTON_MASS − h⁺` for the
+literal `+H+`) -/
+theorem mass_eq_spec_adducts_of_tables (hR : Gen.aaComp = residueFormula) (hA : adjustTablesOk = true)
+    (hK : avgKeysOk = true) (env : Env) (a : Annotation) (o : Opts) (s : List Char)
+    (hr : resolveArgs a o = .ok ⟨effCharge a o, some (.str s), none⟩)
+    (hdom : inDomain env a o.ion o.mono (some (s.map Char.toNat)) = true) :
+    mass env a o = .ok (roundOpt (specMassT lib env a o.ion ((effCharge a o).getD 0) o.mono o.isotope o.loss
+        (some (s.map Char.toNat)) + adductDefect o.mono (s.map Char.toNat)) o.precision) := by
+  unfold inDomain at hdom
+  simp only [Bool.and_eq_true] at hdom
+  obtain ⟨⟨⟨⟨hres, hoff⟩, hmods⟩, hstat⟩, hpn, hions⟩ := hdom
+  have hB : a.seq.contains 'B' = false := by
+    cases hc : a.seq.contains 'B' with
+    | false => rfl
+    | true =>
+      have := List.all_eq_true.mp hres 'B' (List.contains_iff_mem.mp hc)
+      revert this; decide
+  have hZ : a.seq.contains 'Z' = false := by
+    cases hc : a.seq.contains 'Z' with
+    | false => rfl
+    | true =>
+      have := List.all_eq_true.mp hres 'Z' (List.contains_iff_mem.mp hc)
+      revert this; decide
+  obtain ⟨v, hv⟩ := Option.isSome_iff_exists.mp hoff
+  unfold mass massWith
+  rw [hr, bind_ok]
+  simp only [hB, hZ, Bool.false_eq_true, if_false]
+  unfold fastMass
+  rw [staticMass_ok env o.mono a hstat, bind_ok, residueMass_ok o.mono a.seq hR hres, bind_ok,
+    placedModsMass_ok env o.mono a o.ion hmods, bind_ok]
+  dsimp only
+  rw [adjustMass_adducts_eq hA hK _ _ _ _ _ _ _ v hv hpn s hions]
+  unfold specMassT Spec.chargeTerm
+  rw [hv]
+  simp only [Option.getD_some]
+  apply congrArg Except.ok
+  apply congrArg (fun q => roundOpt q o.precision)
+  ring
+
 end Mass
 end Pept
